@@ -328,12 +328,12 @@ func PlanRun(seed, index uint64, tierName string) *Plan {
 			if r.Bool() {
 				sd.pShare = 0 // all arguments distinct: many values meet in small tables
 				if fl[index]-manyBase < len(Cat.Cost) {
-					if n := 40000 / (Cat.Cost[fl[index]-manyBase] + 1); n > reps {
+					if n := 600000 / (Cat.Cost[fl[index]-manyBase] + 1); n > reps {
 						reps = n
 					}
 				}
-				if reps > 6 {
-					reps = 6
+				if reps > 14 {
+					reps = 14
 				}
 			}
 		} else if fl[index] >= pairBase {
@@ -351,6 +351,16 @@ func PlanRun(seed, index uint64, tierName string) *Plan {
 			}
 		} else if Cat.Cost != nil {
 			reps = 4 * t.Reps
+		}
+		if code := fl[index] % manyBase; code < pairBase && code < len(Cat.Size) && Cat.Size[code] > 0 {
+			// the harness's own cost (building and dumping a call) bounds the repetitions too:
+			// about 1.5 MB of canonical dump per task
+			if n := 1500000 / Cat.Size[code]; n < reps {
+				reps = n
+			}
+			if reps < 2 {
+				reps = 2
+			}
 		}
 		for task := 0; task < ntask; task++ {
 			var ops []OpSpec
@@ -410,9 +420,12 @@ func PlanRun(seed, index uint64, tierName string) *Plan {
 	if r.Chance(35) {
 		p.Sched.HotOnly = []int{20, 40, 70}[r.Intn(3)]
 	}
-	if len(p.Tasks) > 2 && r.Chance(15) {
+	if len(p.Tasks) > 2 && r.Chance(20) {
 		p.Sched.Stall = r.Intn(len(p.Tasks))
 		p.Sched.StallFor = 1 + r.Intn(20)
+		if r.Chance(35) {
+			p.Sched.StallFor = 1 << 20 // frozen in the middle of an operation until everybody else is done
+		}
 	}
 	if len(p.Tasks) > 2 && r.Chance(10) {
 		p.Sched.LowPrio = r.Intn(len(p.Tasks))
@@ -534,6 +547,30 @@ func runInst(in *Inst) {
 		}
 	}()
 	in.res = in.Do()
+	scribbleSpare(in.res)
+}
+
+// scribbleSpare uses every returned byte slice the way a caller may: it writes into
+// the capacity beyond its length (what `append(result, ...)` does in place). For a
+// result that owns its memory this is invisible; a result carved out of memory that
+// the library also hands to others (an arena, a pooled buffer, a table row) makes
+// it a write into somebody else's value: a race, and a divergence once the other
+// value is dumped.
+func scribbleSpare(res []interface{}) {
+	for _, r := range res {
+		switch b := r.(type) {
+		case []byte:
+			spare := b[len(b):cap(b)]
+			for i := range spare {
+				spare[i] = 0xEE
+			}
+		case []uint32:
+			spare := b[len(b):cap(b)]
+			for i := range spare {
+				spare[i] = 0xEEEEEEEE
+			}
+		}
+	}
 }
 
 func (in *Inst) outcome() outcome {
@@ -1003,6 +1040,7 @@ func ProbeCosts() {
 	c := Cat
 	c.Cost = make([]int, len(c.Entries))
 	c.Hot = make([]bool, len(c.Entries))
+	c.Size = make([]int, len(c.Entries))
 	vsimrt.SetCounting(true)
 	defer vsimrt.SetCounting(false)
 	for i, e := range c.Entries {
@@ -1013,6 +1051,7 @@ func ProbeCosts() {
 			in := c.Build(e, nil, 0)
 			runInst(in)
 			total += in.yields
+			c.Size[i] += len(in.outcome().dump) / 6
 		}
 		c.Cost[i] = int(total/6) + 1
 		c.Hot[i] = vsimrt.BaseHit(siteFlags, vsimrt.FlagHot)
